@@ -150,6 +150,7 @@ class ExprMixin:
                 fn, owner = found
                 decos = self.w.decorators(fn)
                 if "property" in decos: return self.call_fn(fn, [base], {}, st, owner=owner, qual=f"{owner}.{attr}")
+                if "staticmethod" in self.w.decorators(fn): return VClosure(fn, {}, owner, f"{owner}.{attr}")        # no bound self
                 return VClosure(fn, {"$self": base}, owner, f"{owner}.{attr}")
             for c in self.w.mro(base.cls):
                 ci = self.w.classes.get(c)
@@ -188,6 +189,7 @@ class ExprMixin:
             if found:
                 fn, owner = found
                 if "property" in self.w.decorators(fn): return self.call_fn(fn, [base], {}, st, owner=owner, qual=f"{owner}.{attr}")
+                if "staticmethod" in self.w.decorators(fn): return VClosure(fn, {}, owner, f"{owner}.{attr}")        # no bound self
                 return VClosure(fn, {"$self": base}, owner, f"{owner}.{attr}")
         if isinstance(base, VModule):
             h = self.ext.get(f"{base.name}.{attr}")
@@ -283,6 +285,10 @@ class ExprMixin:
             h = self.ext.get("pow")
             if h: return h(self, [a, b], {}, st, n)
             raise Unsupported("pow")
+        if isinstance(op, (ast.BitOr, ast.BitAnd)):
+            ca, cb = self.concrete(a), self.concrete(b)
+            if isinstance(ca, int) and isinstance(cb, int): return num(ca | cb if isinstance(op, ast.BitOr) else ca & cb)
+            raise Unsupported("bit or/and on symbolic operands")
         if isinstance(op, ast.BitXor):
             h = self.ext.get("bitxor")
             if h: return h(self, a, b, st)
@@ -293,6 +299,14 @@ class ExprMixin:
                 return num(ca // cb if isinstance(op, ast.FloorDiv) else ca % cb)
             h = self.ext.get("floordiv" if isinstance(op, ast.FloorDiv) else "mod")
             if h: return h(self, a, b, st)
+            if cb is not None and cb != 0:
+                # x // c and x % c for a concrete non-zero c over the exact reals: floor(x / c) and x − c·floor(x / c) (python's sign convention: the
+                # remainder takes the sign of the divisor); a non-finite float x gives nan
+                cq = z3.RealVal(str(Fraction(cb)))
+                q = z3.ToReal(z3.ToInt(a.val / cq))
+                sp = z3.If(a.finite, z3.IntVal(0), z3.IntVal(1))
+                isint = bool(a.isint and b.isint)
+                return VNum(simp(sp), q if isinstance(op, ast.FloorDiv) else a.val - cq * q, isint)
             raise Unsupported("floordiv/mod")
         raise Unsupported(f"binop {type(op).__name__}")
 
